@@ -10,9 +10,9 @@ from fractions import Fraction as F
 from mc import domains as D
 from mc.engine import InputPart, Viol
 from mc.models import ival
-from mc.props.common import IT, PT, Textgrid, errors, PE, call, ents, order_type, cmp3, wellformed
+from mc.props.common import IT, PT, Textgrid, errors, PE, call, ents, order_type, cmp3, wellformed, fresh
 
-MODES = ("truncate", "categorical", "error")
+MODES = fresh(("truncate", "categorical", "error"))
 
 
 def _check_iv(case, exact):
